@@ -928,7 +928,7 @@ def main():
             continue
         if thorough:
             nh = len({s[1] for s in spec["steps"] if s[0].startswith("create")})
-            variants = VARIANTS if nh <= 2 else [VARIANTS[(wi + j * 2) % nv] for j in range(4)]
+            variants = VARIANTS if (nh <= 1 and wid != "wide") else [VARIANTS[(wi + j * 2) % nv] for j in range(4)]
         else:
             variants = [VARIANTS[wi % nv]] + ([VARIANTS[(wi + 3) % nv]] if spec.get("two") else [])
         for variant in variants:
